@@ -1,7 +1,7 @@
 //! Executes scenarios against the real conserve library and logs what happens as ndjson events
 //! (the event language of spec/Trace.tla).
 
-use std::collections::{BTreeSet, HashMap};
+use std::collections::{BTreeMap, BTreeSet, HashMap};
 use std::fs;
 use std::panic::{AssertUnwindSafe, catch_unwind};
 use std::path::{Path, PathBuf};
@@ -493,6 +493,7 @@ impl Runner {
             "new_archive" => self.do_new_archive(st),
             "archive_digest" => self.do_archive_digest(st),
             "walk" => self.do_walk(st),
+            "bulk_probe" => self.do_bulk_probe(st),
             other => panic!("unknown step op {other}"),
         }
     }
@@ -1055,6 +1056,73 @@ impl Runner {
             "dest_unchanged": true, "outside_unchanged": true, "ms": 0}));
     }
 
+    /// A band with more index hunks than fit one index sub-directory (doc/format.md: hunk n lives at
+    /// i/{n / 10000 : 5 digits}/{n : 9 digits}), written by a real backup of `nfiles` empty files with
+    /// one entry per hunk into an archive of its own. No per-verb events (there would be tens of
+    /// thousands); the harness's own walk of the index directory is logged as one observation:
+    /// where every hunk file sits, whether the numbers are consecutive from zero, what the tail says.
+    fn do_bulk_probe(&mut self, st: &Value) {
+        let nfiles = st.get("nfiles").and_then(|x| x.as_u64()).unwrap_or(10_050) as usize;
+        let h = st.get("H").and_then(|x| x.as_u64()).unwrap_or(1) as usize;
+        let src = self.fresh("bulk_src");
+        let arch = self.fresh("bulk_arch");
+        fs::create_dir_all(&src).unwrap();
+        for i in 0..nfiles {
+            fs::write(src.join(format!("f{i:06}")), b"").unwrap();
+        }
+        let mon = TestMonitor::arc();
+        let mon2 = mon.clone();
+        let (arch2, src2) = (arch.clone(), src.clone());
+        let out = run_call(&self.rt_flavor, &mon, || async move {
+            let archive = Archive::create(Transport::local(&arch2)).await.map_err(|e| err_name(&e))?;
+            let options = BackupOptions { max_entries_per_hunk: h, ..BackupOptions::default() };
+            conserve::backup(&archive, &src2, &options, mon2).await.map_err(|e| err_name(&e))
+        });
+        let mut found: Vec<(String, String)> = Vec::new();
+        let idx = arch.join("b0000").join("i");
+        if let Ok(rd) = fs::read_dir(&idx) {
+            for sub in rd.flatten() {
+                let sname = sub.file_name().to_string_lossy().to_string();
+                if let Ok(rd2) = fs::read_dir(sub.path()) {
+                    for f in rd2.flatten() {
+                        found.push((sname.clone(), f.file_name().to_string_lossy().to_string()));
+                    }
+                }
+            }
+        }
+        let mut nums: Vec<i64> = Vec::new();
+        let mut misplaced: Vec<String> = Vec::new();
+        for (sub, name) in &found {
+            let ok = name.len() == 9 && name.bytes().all(|c| c.is_ascii_digit());
+            let n = name.parse::<i64>().unwrap_or(-1);
+            if ok {
+                nums.push(n);
+            }
+            if !ok || *sub != format!("{:05}", n / 10000) {
+                if misplaced.len() < 5 {
+                    misplaced.push(format!("{sub}/{name}"));
+                }
+            }
+        }
+        nums.sort();
+        let consecutive = nums.iter().enumerate().all(|(i, n)| *n == i as i64);
+        let tail_count = fs::read(arch.join("b0000").join("BANDTAIL")).ok()
+            .and_then(|b| serde_json::from_slice::<Value>(&b).ok())
+            .and_then(|v| v["index_hunk_count"].as_i64()).unwrap_or(-1);
+        // spot-decode the first and the last hunk where the documented layout puts them
+        let last = nums.last().cloned().unwrap_or(-1);
+        let decodes = [0i64, last].iter().all(|n| {
+            *n >= 0 && fs::read(idx.join(format!("{:05}", n / 10000)).join(format!("{n:09}")))
+                .map(|b| decode::decode_hunk(&b)["st"] == "ok").unwrap_or(false)
+        });
+        self.log.emit(json!({"ev": "obs", "what": "placement", "band": 0, "res": out.res, "panic": out.panic, "pmsg": out.panic_msg,
+            "timeout": out.timeout, "mon_errors": out.mon_errors.len(), "mon_list": out.mon_errors,
+            "nhunks": nums.len(), "expected": ((nfiles + 1) + h - 1) / h, "misplaced": misplaced, "consecutive": consecutive,
+            "tail_count": tail_count.min(2_000_000_000), "decodes": decodes}));
+        tree::remove_tree(&src);
+        tree::remove_tree(&arch);
+    }
+
     /// Direct contract probe of the transport: one write through the hooked transport.
     fn do_probe_write(&mut self, st: &Value) {
         let path = st["path"].as_str().unwrap().to_string();
@@ -1175,6 +1243,48 @@ impl Runner {
                 picked.push(cands.swap_remove(i));
             }
             cands = picked;
+        }
+        // "smart" bit flips: of ALL single-bit flips of an index hunk, head or tail, those after which
+        // the file still decodes (for the independent reader) to something different -- an altered
+        // address, length, path, kind, count ... -- are the ones a reader has to survive in other
+        // ways than by rejecting the file; flips that make the file undecodable are all alike.
+        let smart = st.get("smart_flips").and_then(|x| x.as_u64()).unwrap_or(0) as usize;
+        if smart > 0 {
+            for (f, len) in &files {
+                let t = decode::key_of(f)["t"].as_str().unwrap_or("").to_string();
+                if !(t == "Hunk" || t == "Head" || (t == "Tail" && with_tails)) || *len == 0 || *len > 4096 {
+                    continue;
+                }
+                let old = fs::read(self.arch.join(f)).unwrap_or_default();
+                let base = decode::decode_for(f, &old);
+                let mut by_sig: BTreeMap<String, Vec<u64>> = BTreeMap::new();
+                for pos in 0..(old.len() as u64 * 8) {
+                    let mut n = old.clone();
+                    n[(pos / 8) as usize] ^= 1 << (pos % 8);
+                    let d = decode::decode_for(f, &n);
+                    if d["st"] == "ok" && d != base {
+                        by_sig.entry(decode::diff_signature(&base, &d)).or_default().push(pos);
+                    }
+                }
+                // one of every kind of difference first, then more of the kinds that touch addresses
+                let mut chosen: Vec<u64> = Vec::new();
+                for (_, v) in by_sig.iter() {
+                    chosen.push(v[(rnd() % v.len() as u64) as usize]);
+                }
+                let addr: Vec<u64> = by_sig.iter().filter(|(k, _)| k.contains("a.")).flat_map(|(_, v)| v.iter().cloned()).collect();
+                let mut extra = 0;
+                while chosen.len() < smart && extra < 4 * smart && !addr.is_empty() {
+                    let p = addr[(rnd() % addr.len() as u64) as usize];
+                    if !chosen.contains(&p) {
+                        chosen.push(p);
+                    }
+                    extra += 1;
+                }
+                chosen.truncate(smart);
+                for p in chosen {
+                    cands.push(json!({"op": "damage", "path": f, "how": "bitflip", "pos": p}));
+                }
+            }
         }
         self.do_save();
         self.log.emit(json!({"ev": "sweep", "mode": "damage", "nops": files.len(), "ninj": cands.len()}));
